@@ -171,7 +171,13 @@ class YamlDocument(HierDictDocument):
 
             ctx.in_document = yaml.load(s, **self.in_kwargs)
 
-        except ParserError as e:
+        except (yaml.YAMLError, UnicodeDecodeError) as e:
+            # ParserError is just one of them: the scanner, the reader, the
+            # composer and the constructor have their own.
+            raise Fault('Client.YamlDecodeError', repr(e))
+
+        except (ValueError, TypeError, AttributeError) as e:
+            # the constructors of tagged scalars (!!int "x", !!timestamp "x")
             raise Fault('Client.YamlDecodeError', repr(e))
 
     def create_out_string(self, ctx, out_string_encoding='utf8'):
